@@ -16,7 +16,7 @@ import numpy.typing as npt
 import scipp as sc
 from dateutil.parser import parse as parse_datetime
 
-from .._files import open_or_pass
+from .._files import is_file_object, open_or_pass
 from . import _ir as ir
 from ._build import SqwBuilder
 from ._bytes import Byteorder
@@ -62,7 +62,7 @@ class Sqw:
         byteorder: Byteorder | Literal["little", "big"] | None = None,
     ) -> Generator[Sqw, None, None]:
         with open_or_pass(path, "rb") as f:
-            stored_path = None if isinstance(path, BinaryIO | BytesIO) else Path(path)
+            stored_path = None if is_file_object(path) else Path(path)
             sqw_io = LowLevelSqw(
                 f,
                 path=stored_path,
